@@ -345,6 +345,19 @@ def check_single_pass(ctx):
                 # both must lie on one path from the entry that does not take a "re-iterable" edge
                 if pth_ is not None and g.path(g.entry, lambda x, s1=s1: x is s1, may_raise=lambda x: False, edge_filter=reiterable_edge) is not None:
                     bad = (s1, s2)
+        # the argument is taken as the iterable it is: nothing wraps it into a one-element display (`[iterable]` for a str / a scalar
+        # makes extend("abc") add one item where list.extend adds three)
+        wrapped = None
+        for x in ast.walk(fn.node):
+            if isinstance(x, (ast.List, ast.Tuple, ast.Set)) and len(x.elts) == 1 and isinstance(x.elts[0], ast.Name) and x.elts[0].id == p \
+                    and isinstance(x.ctx, ast.Load):
+                nn_ = [nd for nd in g.nodes if nd.ast is not None and any(y is x for y in ast.walk(nd.ast))]
+                if not nn_ or all(d.kind == "param" for d in rd.reaching(nn_[0], p)):
+                    wrapped = x
+        ctx.ob("iterable.as-given", fn, "parameter %s" % p, wrapped is None,
+               "the argument is iterated as it is" if wrapped is None else
+               "%s wraps its argument into %s: a str / bytes (an iterable of its characters for the built-in) or another one-shot value is added "
+               "as one item" % (fn.qualname, ast.unparse(wrapped)), nontrivial=wrapped is not None)
         ctx.ob("iterable.single-pass", fn, "parameter %s" % p, bad is None,
                "traversed at most once on every path (one-shot iterables work)" if bad is None else
                "%s traverses its argument `%s` twice (line %s and line %s): a generator / zip / iterator is exhausted by the first pass and the "
